@@ -96,9 +96,13 @@ func VerifC14SelfComp() {
 	dec := make([]bool, k)
 	for i := 0; i < k; i++ {
 		gap[i] = verifAdvance(verifName("gap", i), verifParam("maxgap"))
-		sv := verifInt(verifName("src", i))
-		verifAssume(verifAnd(sv >= 0, sv < nsrc))
-		src[i] = verifConcretize(sv, 0, nsrc-1)
+		if pat := verifParam("srcpat"); pat >= 0 && nsrc == 2 {
+			src[i] = pat >> uint(i) & 1 // one job per pattern of sources
+		} else {
+			sv := verifInt(verifName("src", i))
+			verifAssume(verifAnd(sv >= 0, sv < nsrc))
+			src[i] = verifConcretize(sv, 0, nsrc-1)
+		}
 		amt[i] = verifInt64(verifName("amount", i))
 		verifAssume(verifAnd(amt[i] >= 1, amt[i] <= burst))
 		dec[i] = vfSend(tl, next, src[i], amt[i])
